@@ -154,7 +154,7 @@ def model_line(case):
     op = {"imap": "imap", "icollect": "imap", "map": "map", "collect": "collect"}[k]
     files = " ".join(("b" + ",".join(map(str, t))) if case.get("bundle") else f"s{t[0]}" for t in tasks_of(case))
     rd = " ".join({"o": f"o{1000 + i}", "n": "n", "f": "f"}[c] for i, c in enumerate(case["rb"]))
-    return f"{op} {case['w']} {''.join(map(str, cfg))} | {files} | {rd} | {fb} | " + " ".join(map(str, case["perm"]))
+    return f"{op} {case['w']} {''.join(map(str, cfg))} | {files} | {rd} | {fb} | " + (" ".join(map(str, case["perm"])) or "-")
 
 
 def render_content(c):
